@@ -6,6 +6,8 @@ sys.path.insert(0, HERE)
 import run as st
 from benign import BENIGN
 ids = [json.loads(l)['id'] for l in open(os.path.join(st.VERIF, 'properties.jsonl'))]
+if os.environ.get('VERIF_BENIGN_PROPS'):
+    ids = os.environ['VERIF_BENIGN_PROPS'].split(',')      # after a change to some properties' rules only
 sel = [b for b in BENIGN if len(sys.argv) < 2 or any(b['id'].startswith(a) for a in sys.argv[1:])]
 bad = 0
 for b in sel:
